@@ -1,6 +1,6 @@
 #!/bin/sh
 # tools/seedtest.sh <patch> <PID>... : apply a seeded change to /repo, run the checks, undo
-patch=$1; shift
+patch=$(realpath $1); shift
 git -C /repo apply "$patch" || exit 9
 for pid in "$@"; do
   timeout 900 ./check $pid 2>&1 | grep -E "VIOLATION|UNDECIDED|CHECKER-ERROR|KNOWN|tier=" | cut -c1-330
